@@ -512,6 +512,43 @@ def run_cases(args):
     return out
 
 
+def bulk_payloads(a):
+    """(child) large and extreme payloads: 9 MiB attributes (a shard above 16 MiB), all-zero and constant arrays (compression ratios
+    in the thousands) and incompressible ones, through every reader the format x compression has.  Arrays are built and compared
+    wholesale (md5 of the C-order bytes) — the element-wise machinery above covers the bit patterns, this covers the sizes."""
+    import hashlib, shutil
+    sp.sedpack(rust=True)
+    import numpy as np
+    from sedpack.io import Attribute, Dataset
+    out = []
+    for c in a["cases"]:
+        root = c["root"]; shutil.rmtree(root, ignore_errors=True)
+        H = c["size"]
+        r = {"case": {k: c[k] for k in c if k != "root"}, "runs": []}
+        try:
+            ds = sp.mk(root, fmt=c["fmt"], comp=c["comp"], eps=2, attrs=[Attribute(name="id", dtype="int64", shape=()), Attribute(name="m", dtype="uint8", shape=(H,))])
+            prng = np.random.default_rng(c["seed"])
+            want = []
+            with ds.filler() as f:
+                for i, kind in enumerate(c["kinds"]):
+                    m = {"zeros": np.zeros(H, np.uint8), "const": np.full(H, 0x5A, np.uint8), "random": prng.integers(0, 256, H, dtype=np.uint8)}[kind]
+                    f.write_example(values={"id": np.int64(i), "m": m}, split="train")
+                    want.append([i, hashlib.md5(m.tobytes()).hexdigest()])
+            ds = Dataset(root)
+            for rd in c["readers"]:
+                try:
+                    got = [[int(np.asarray(e["id"]).reshape(-1)[0]), hashlib.md5(np.ascontiguousarray(np.asarray(e["m"])).tobytes()).hexdigest()] for e in _read_all(ds, rd, 2)]
+                    r["runs"].append({"reader": rd, "same": got == want, "n": len(got), "first_diff": next((i for i, (g, w) in enumerate(zip(got, want)) if g != w), None)})
+                except BaseException as e:  # noqa: BLE001
+                    r["runs"].append({"reader": rd, "error": f"{type(e).__name__}: {str(e)[:160]}"})
+            r["want_n"] = len(want)
+        except BaseException as e:  # noqa: BLE001
+            r["error"] = f"{type(e).__name__}: {str(e)[:200]}"
+        shutil.rmtree(root, ignore_errors=True)
+        out.append(r)
+    return out
+
+
 def swap_probe(_):
     """(child) the real save_numpy_vector_as_bytearray under every byte-order tag x claimed sys.byteorder."""
     sp.sedpack()
@@ -634,6 +671,23 @@ def run(ctx):
                            {"case": c, "rejected": rej})
         if r.get("create_error"):
             ctx.report({"fmt": c["fmt"], "kind": "create"}, f"{c['fmt']}/{c['comp'] or '-'}: dataset could not be created: {r['create_error']}", {"case": c})
+    # ---- sizes: shards above 16 MiB, constant and incompressible payloads
+    rust_comps = {x for x, _ in tables["rust"]}
+    fbc = [c for c in dict((c, l) for c, l in tables["compressions"]).get(WRITER["fb"], [""])]
+    pick = fbc if ctx.thorough else [c for c in fbc if c in ("GZIP",)] + [fbc[ctx.seed % len(fbc)]]
+    bcases = [{"root": str(ctx.scratch / f"c01_bulk_{i}"), "fmt": "fb", "comp": comp, "size": 9 << 20, "kinds": ["random", "zeros", "random", "const"], "seed": ctx.seed + i,
+               "readers": ["sync"] + (["rust"] if comp in rust_comps else ["concurrent"])} for i, comp in enumerate(dict.fromkeys(pick))]
+    bulk = child.call("harness.checks.c01", "bulk_payloads", {"cases": bcases}, timeout=1200) if not ctx.replay else []
+    for b in bulk:
+        c = b["case"]
+        if "error" in b:
+            ctx.report({"fmt": "fb", "kind": "bulk-create"}, f"fb/{c['comp'] or '-'}: writing 4 examples of {c['size'] >> 20} MiB failed: {b['error']}", {"bulk_case": c}); continue
+        for x in b["runs"]:
+            if "error" in x or not x["same"]:
+                ctx.report({"fmt": "fb", "kind": "bulk", "reader": x["reader"], "comp": c["comp"]},
+                           f"fb/{c['comp'] or '-'} reader {x['reader']}: examples holding {c['size'] >> 20} MiB arrays (random / all-zero / constant; shards above 16 MiB) "
+                           + (f"raised {x['error']}" if "error" in x else f"read back differently (first difference at example {x['first_diff']}, {x['n']} of {b['want_n']} examples)"),
+                           {"bulk_case": c, "run": x})
     # ---- correspondence (a): byte vectors vs M-CODEC
     reqs, owners = [], []
     for r in results:
@@ -714,5 +768,5 @@ def run(ctx):
         "samples": [{"case": r["case"], "written": r.get("written"), "mismatches": len(r["mismatches"])} for r in results[:3]],
         "input_distribution": {"datasets": len(results), "elements_compared": sum(r.get("elements", 0) for r in results), "presentations": dict(pres), "patterns": dict(pats),
                                "reader_runs": dict(rdr), "reader_errors": dict(rerrs), "rejected_writes_by_presentation": dict(rej), "mismatches": nmis,
-                               "fb_byte_vectors_checked": len(live), "caller_buffers_overwritten_after_write": sum(r.get("scrambled", 0) for r in results), "max_secs_per_dataset": max([r.get("secs", 0) for r in results] or [0])},
+                               "fb_byte_vectors_checked": len(live), "bulk_payload_runs": sum(len(b.get("runs", [])) for b in bulk), "caller_buffers_overwritten_after_write": sum(r.get("scrambled", 0) for r in results), "max_secs_per_dataset": max([r.get("secs", 0) for r in results] or [0])},
     })
